@@ -1,0 +1,21 @@
+// Copyright 2026 The Go Authors. All rights reserved.
+// Use of this source code is governed by a BSD-style
+// license that can be found in the LICENSE file.
+
+//go:build !verif
+
+package impl
+
+import (
+	"unsafe"
+
+	"google.golang.org/protobuf/reflect/protoreflect"
+)
+
+// Verification hooks (see verif_on.go). Without the verif build tag they are
+// empty and inline to nothing.
+
+func verifLazyDecoded(mi *MessageInfo, msg unsafe.Pointer, num protoreflect.FieldNumber) {}
+
+func verifLazyPublished(mi *MessageInfo, msg unsafe.Pointer, num protoreflect.FieldNumber, won bool) {
+}
